@@ -70,6 +70,15 @@ pub const PINNED_REJECTS: &[(&str, &str)] = &[
     ("<a><?XmL x?></a>", "pi-target-xml"),
     ("<?xml\tx?><a/>", "pi-target-xml"),
     ("<a/><?XML?>", "pi-target-xml"),
+    // a name written with a colon and nothing in front of it: let through by xmlparser (empty prefix
+    // positioned at the colon), refused by `check_qname` since /repo a5fafb0 (UnknownPrefix)
+    ("<:a/>", "colon-without-prefix"),
+    ("<a :b='1'/>", "colon-without-prefix"),
+    ("<a></:a>", "colon-without-prefix"),
+    ("<:a :b='1'/>", "colon-without-prefix"),
+    ("<a><b>t</:b></a>", "colon-without-prefix"),
+    ("<a xmlns='urn:d' :b=\"1\"/>", "colon-without-prefix"),
+    ("<a><:b></:b></a>", "colon-without-prefix"),
 ];
 
 /// A complete element whose end tag spells the start tag's expanded name differently.
@@ -121,6 +130,8 @@ pub fn faults(r: &Rendered, rng: &mut Rng, all: bool) -> Vec<(String, String)> {
         out.push(("xml-prefix-rebound".into(), insert_at(t, at, *rng.pick(XML_REBINDINGS))));
         // Namespaces in XML 1.0 section 3, NSC 'No Prefix Undeclaring': only the default namespace can be undeclared
         out.push(("prefixed-undeclaration".into(), insert_at(t, at, *rng.pick(&[" xmlns:zr=''", " xmlns:zr=\"\"", " xmlns:p=''"]))));
+        // Namespaces in XML 1.0 section 4: a qualified name is `prefix:local` or `local`, never `:local`
+        out.push(("colon-without-prefix".into(), insert_at(t, at, *rng.pick(&[" :zk='1'", " :zk=\"\"", "\t:xmlns='u'"]))));
     }
     for at in cap(r.text_points.clone(), rng) {
         out.push(("raw-lt-in-text".into(), insert_at(t, at, "< ")));
@@ -131,6 +142,7 @@ pub fn faults(r: &Rendered, rng: &mut Rng, all: bool) -> Vec<(String, String)> {
         out.push(("cdata-end-in-text".into(), insert_at(t, at, "]]>")));
         out.push(("double-hyphen-in-comment".into(), insert_at(t, at, "<!-- a -- b -->")));
         out.push(("pi-target-xml".into(), insert_at(t, at, *rng.pick(XML_TARGET_PIS))));
+        out.push(("colon-without-prefix".into(), insert_at(t, at, *rng.pick(&["<:ze/>", "<ze></:ze>", "<:ze>t</:ze>", "<ze :k='v'/>"]))));
         if !t[at..].starts_with(';') {
             out.push(("unterminated-reference".into(), insert_at(t, at, "&lt")));
         }
